@@ -259,6 +259,9 @@ def rules(rep, facts):
     r3b_empty_tables(rep, facts)
     r4_container_typing(rep, facts)
     r6_option_mirror(rep, facts)
+    if 'toml' in facts.crates:
+        from .rules_c13 import r7_value_passes
+        r7_value_passes(rep, facts, rid='C07/R9')
     if 'toml' in facts.crates and facts.has_method('serde::ser::Serialize', 'toml::value::Value', 'serialize'):
         from .rules_c17 import r1_passes
         r1_passes(rep, facts, rid='C07/R8')
